@@ -20,6 +20,16 @@ def norm(path):
     while prev != s:
         prev = s
         s = _GEN.sub("", s)
+    from . import names
+    return names.mangle(s)
+
+
+def norm_raw(path):
+    prev = None
+    s = path
+    while prev != s:
+        prev = s
+        s = _GEN.sub("", s)
     return s
 
 
@@ -301,10 +311,14 @@ class Program:
     def __init__(self, path):
         with open(path) as f:
             self.j = json.load(f)
+        from . import names as _names
+        _names.configure([norm_raw(b["def"]) for b in self.j["bodies"]])   # colliding crate functions are renamed from here on (engine/names.py)
         self.bodies = [Body(b, self) for b in self.j["bodies"]]
         self.by_short = defaultdict(list)
         for b in self.bodies:
             self.by_short[b.short].append(b)
+        from . import names
+        names.register(self)
         self.adts = {norm(a["name"]): a for a in self.j["adts"]}
         self.impls = self.j["impls"]
         self.statics = self.j["statics"]
